@@ -45,4 +45,19 @@ CHECKS.update({
         "note": "Trusted: Lean kernel; secp256k1/Keccak as oracles supplied per case; harness + driver; differential run samples inputs.",
     },
 })
+CHECKS.update({
+    "C13": {
+        "families": ("processor",),
+        "level": "proof",
+        "technique": "Lean 4 invariant proof (induction over all event sequences) that the processor model never reaches a panic site; model tied by differential execution incl. panic outcomes",
+        "text": ("The aggregation state machine (handleMessage/Injection/Observation/InboundSignedVAA/Cleanup + set updates) is an executable "
+                 "Lean model in which every Go panic site is an explicit result; no_panic proves by induction over arbitrary event lists, with "
+                 "an explicit invariant, that no sequence of inputs reaches one. The model is replayed against the real handlers (real badger, "
+                 "real signer) on generated scenarios each run; the harness recovers panics, so the model must predict them exactly, and a "
+                 "panic of the real code is reported with the scenario as replay."),
+        "note": ("Trusted: Lean kernel; assumptions stated in the theorem (signer does not fail; ecrecover succeeds only on 65-byte signatures); "
+                 "harness + driver; Go runtime (channels, maps), badger, protobuf; the Run loop's select itself is not modelled (handlers are "
+                 "called as Run dispatches them)."),
+    },
+})
 NOT_BUILT = {}
